@@ -543,7 +543,9 @@ func c10Exec(in *c10In) (o c10Obs, globs string) {
 	names := c10Names(in)
 	globs = c10Globs(in, dir, names)
 	if in.Child {
-		ctx, cancel := context.WithTimeout(context.Background(), 90*time.Second)
+		// a soup that imports itself through `import *` needs ~45 s for its 10000 imports on an idle
+		// machine (each one splices every file of the directory again): leave room for a loaded one
+		ctx, cancel := context.WithTimeout(context.Background(), 240*time.Second)
 		defer cancel()
 		cmd := exec.CommandContext(ctx, "sh", "-c", "ulimit -v 4000000; exec \"$0\" c10child \"$1\"", os.Args[0], path)
 		cmd.Env = os.Environ()
@@ -670,9 +672,15 @@ type c10Rend struct {
 	r      *Rand
 	mode   int // 0 inline, 1 files, 2 snippets, 3 mixed
 	files  map[string]string
-	snips  strings.Builder
+	snips  []string // snippet definitions, in the order in which their bodies were completed (inner first)
 	n      int
 	maxDep int
+	pImp   int // chance (percent) that a run of lines is moved behind an import
+	// order of the snippet definitions in the text: 0 inner first (every snippet defined before
+	// the snippets that import it), 1 outer first (forward references: a snippet only has to exist
+	// when the importing one is USED), 2 shuffled
+	snipOrder int
+	compact   bool // snippet definitions share physical lines (`(a) { x y } (b) { z }`)
 }
 
 func (R *c10Rend) line(l c10Line, indent string, depth int, fdir string, sb *strings.Builder) {
@@ -714,7 +722,19 @@ func (R *c10Rend) lines(ls []c10Line, indent string, depth int, fdir string) str
 		case how == 2: // snippet (its tokens keep the file and lines of the definition)
 			name := fmt.Sprintf("sn%d", R.n)
 			body := R.lines(run, "\t", depth+1, "")
-			R.snips.WriteString("(" + name + ") {" + c10EOL(r) + body + "}" + c10EOL(r))
+			open, shut := c10EOL(r), c10EOL(r)
+			if R.compact {
+				// the first line starts on the line of the opening brace, the closing brace stands on
+				// the last line of the body and the next definition follows on that same line: tokens
+				// of different snippets carry EQUAL definition-site line numbers
+				body = strings.TrimRight(strings.TrimLeft(body, "\t"), "\r\n")
+				if i := strings.LastIndex(body, "\n"); strings.Contains(body[i+1:], "#") {
+					body += "\n" // the last line ends in a comment: the brace must go below it
+				}
+				open, shut = c10Sep(r), c10Sep(r)
+				body += c10Sep(r)
+			}
+			R.snips = append(R.snips, "("+name+")"+c10Sep(r)+"{"+open+body+"}"+shut)
 			sb.WriteString(indent + "import" + c10Sep(r) + name + c10EOL(r))
 		case k >= 2 && r.Chance(40): // glob over several files
 			pre := fmt.Sprintf("g%d_", R.n)
@@ -782,10 +802,37 @@ func c10Expected(blocks []c10Block) []c10EBlock {
 	return bl
 }
 
+// snipHead writes the snippet definitions in the chosen order
+func (R *c10Rend) snipHead() string {
+	defs := append([]string(nil), R.snips...)
+	switch R.snipOrder {
+	case 1:
+		for i, j := 0, len(defs)-1; i < j; i, j = i+1, j-1 {
+			defs[i], defs[j] = defs[j], defs[i]
+		}
+	case 2:
+		p := R.r.Perm(len(defs))
+		for i, j := range p {
+			defs[i] = R.snips[j]
+		}
+	}
+	head := strings.Join(defs, "")
+	if head != "" && !strings.HasSuffix(head, "\n") {
+		head += "\n"
+	}
+	return head
+}
+
 // c10Render turns blocks into a main text plus files
 func c10Render(blocks []c10Block, mode int, braces bool, seed uint64) (string, map[string]string) {
-	R := &c10Rend{r: NewRand(seed), mode: mode, files: map[string]string{}, maxDep: 4}
+	return c10RenderOpt(blocks, mode, braces, seed, 35)
+}
+
+func c10RenderOpt(blocks []c10Block, mode int, braces bool, seed uint64, pImp int) (string, map[string]string) {
+	R := &c10Rend{r: NewRand(seed), mode: mode, files: map[string]string{}, maxDep: 4, pImp: pImp}
 	r := R.r
+	R.snipOrder = r.Intn(3)
+	R.compact = r.Chance(25)
 	var main strings.Builder
 	for _, b := range blocks {
 		var sb strings.Builder
@@ -821,7 +868,7 @@ func c10Render(blocks []c10Block, mode int, braces bool, seed uint64) (string, m
 			main.WriteString(sb.String())
 		}
 	}
-	head := R.snips.String()
+	head := R.snipHead()
 	if head != "" && mode == 3 && r.Chance(40) {
 		// snippet definitions in a file of their own, imported first
 		R.files["snips.conf"] = head
@@ -868,9 +915,9 @@ func c10Mutate(s string, r *Rand) string {
 
 func c10Gen(r *Rand, tier string) []interface{} {
 	var out []interface{}
-	nLex, nRaw, nAst, nMal, nCyc := 600, 450, 600, 200, 12
+	nLex, nRaw, nAst, nMal, nCyc, nNest := 600, 450, 560, 200, 12, 80
 	if tier == "thorough" {
-		nLex, nRaw, nAst, nMal, nCyc = 10000, 9000, 13000, 4000, 120
+		nLex, nRaw, nAst, nMal, nCyc, nNest = 10000, 9000, 12000, 4000, 120, 1500
 	}
 	alpha := []string{"a", "b", "c", " ", " ", "\t", "\n", "\n", "\r", "\"", "\"", "\\", "#", "{", "}", ",", " ", " ", "é", "\xff", "\v", "x", " ", " "}
 	for i := 0; i < nLex; i++ {
@@ -885,7 +932,7 @@ func c10Gen(r *Rand, tier string) []interface{} {
 	}
 	// token soups, with a few files and directories around them
 	words := []string{"a.com", "b.com,", "dir1", "dir2", "arg", "{", "}", "{", "}", "\"q w\"", "\"multi\nline\"", "x,", "{$V_A}", "{%V_E%}", "{$V_UNSET}", "#c", "\n", "\n", "\n",
-		"import", "import", "nofile.conf", "inc1.conf", "inc?.conf", "sub/*.conf", "*", "sub", "sn", "(sn)", "(sn)", "\"\"", "\"unterminated", "\\", ",", "{$V_BR}", "{$V_IMP}", "{$V_F}", "a*b*", "[x]", "{$V_NL}"}
+		"import", "import", "nofile.conf", "inc1.conf", "inc?.conf", "sub/*.conf", "*", "sub", "sn", "(sn)", "(sn)", "\"\"", "\"unterminated", "\\", ",", "{$V_BR}", "{$V_IMP}", "{$V_F}", "a*b*", "[x]", "{$V_NL}", "\"multi\n{$V_A}line\"", "\"{$V_E}\nx\""}
 	soup := func(n int) string {
 		var sb strings.Builder
 		for k := r.Range(0, n); k > 0; k-- {
@@ -930,7 +977,10 @@ func c10Gen(r *Rand, tier string) []interface{} {
 	}
 	keyPool := []string{"a.com", "b.com:8080", "http://x.org", ":2015", "c.com/path", "{$V_A}.com", "*.d.com"}
 	dirPool := []string{"dir1", "dir2", "gzip", "root", "header", "{$V_A}dir"}
-	argPool := []string{"x", "y", "/path", "two words", "multi\nline", "say \"hi\"", "#notcomment", "a#b", "{$V_A}", "pre{%V_A%}post", "{$V_E}", "{$V_UNSET}z", "", "tab\there", "é", "back\\slash", "{$V_SP}", "comma,", "-1", "k=v", "x\\\ny", "\\\n", "q\\", "{$V_REC}", "{$V_LOOP}{$V_A}", "{$V_E}{$V_A}{$V_E}", "{$V_PCT}", "{%V_REC%}", "{$}", "{$V_A", "a}{$V_A}", "import", "{$V_UNSET:dflt}", "{$V_A:dflt}x", "{%V_UNSET:-d%}"}
+	argPool := []string{"x", "y", "/path", "two words", "multi\nline", "say \"hi\"", "#notcomment", "a#b", "{$V_A}", "pre{%V_A%}post", "{$V_E}", "{$V_UNSET}z", "", "tab\there", "é", "back\\slash", "{$V_SP}", "comma,", "-1", "k=v", "x\\\ny", "\\\n", "q\\", "{$V_REC}", "{$V_LOOP}{$V_A}", "{$V_E}{$V_A}{$V_E}", "{$V_PCT}", "{%V_REC%}", "{$}", "{$V_A", "a}{$V_A}", "import", "{$V_UNSET:dflt}", "{$V_A:dflt}x", "{%V_UNSET:-d%}",
+		// quoted arguments that span several input lines AND hold a reference that changes the text: the token
+		// ends on the line where its quotes close, the arguments behind it stay on its directive
+		"multi\n{$V_A}line", "{$V_E}two\nlines", "l1\n{$V_UNSET}\nl3", "{%V_A%}\\\ncont", "Hello {$V_SP},\nwelcome"}
 	subPool := []string{"opt1", "opt2", "rule", "to"}
 	var mkLine func(depth int, nl bool) c10Line
 	mkLine = func(depth int, nl bool) c10Line {
@@ -940,7 +990,8 @@ func c10Gen(r *Rand, tier string) []interface{} {
 		}
 		for k := r.Intn(4); k > 0; k-- {
 			if nl && r.Chance(30) {
-				l.Args = append(l.Args, r.Pick([]string{"{$V_NL}", "a{$V_NL}"}))
+				// ... and values that bring line breaks of their own, next to written ones
+				l.Args = append(l.Args, r.Pick([]string{"{$V_NL}", "a{$V_NL}", "w1\nw2{$V_NL}", "{$V_NL}\n{$V_A}"}))
 			} else {
 				l.Args = append(l.Args, r.Pick(argPool))
 			}
@@ -982,6 +1033,25 @@ func c10Gen(r *Rand, tier string) []interface{} {
 			tag = "ast:env-newline"
 		}
 		out = append(out, &c10In{Kind: "parse", Tag: tag, Main: main, Files: files, HasExp: true, Expected: c10Expected(blocks)})
+	}
+	// nested snippet imports: blocks of several plain lines rendered with snippets only and a high
+	// chance of moving a run of lines behind an import at every depth — snippets importing snippets
+	// with directives before AND after the inner import, consecutive imports, the definitions written
+	// inner-first, outer-first (forward references) or shuffled, one per line or sharing lines, so that
+	// the definition-site line numbers of neighbouring tokens are larger, smaller or equal
+	for i := 0; i < nNest; i++ {
+		blocks := mkBlocks(false)
+		for b := range blocks {
+			for len(blocks[b].Lines) < 4 {
+				blocks[b].Lines = append(blocks[b].Lines, mkLine(0, false))
+			}
+		}
+		mode := 2
+		if i%4 == 3 {
+			mode = 3
+		}
+		main, files := c10RenderOpt(blocks, mode, r.Chance(60), r.U64()%1000003, 60)
+		out = append(out, &c10In{Kind: "parse", Tag: tags[mode], Main: main, Files: files, HasExp: true, Expected: c10Expected(blocks)})
 	}
 	// malformed block structure: a rendered configuration with braces/quotes/imports damaged
 	for i := 0; i < nMal; i++ {
@@ -1078,7 +1148,7 @@ func init() {
 	}
 	register(&Property{
 		ID: "C10", Imports: "V.Lib V.C10_Model", Judge: "judge", Shard: 120,
-		Rule: "lexer: random rune strings over a quote/escape/comment/space alphabet (incl. BOM, NBSP, U+2028, invalid UTF-8) through NewDispenser; parser: token soups with importable files, sub-directories and snippets around them through casketfile.Parse (panic capture + watchdog, child process when an import cycle is possible); random ASTs (blocks, keys, directives, quoted/escaped/multi-line/env args, sub-blocks nested to depth 3) rendered with random layout and a random partition into imported files (nested to depth 4, sub-directories, glob groups, env-expanded patterns, whole sites), snippets (incl. snippets importing snippets and a snippet file) — the model parses the SAME files through a glob/file oracle and must give the same keys and (file, line, text) tokens or the same error class, and the output must equal the generating AST in texts and line structure; damaged renderings (malformed block structure); generated import cycles of length 1-4 at directive, sub-block and top level; non-trivial = >=2 tokens / parsed blocks / every AST, file or cycle case",
+		Rule: "lexer: random rune strings over a quote/escape/comment/space alphabet (incl. BOM, NBSP, U+2028, invalid UTF-8) through NewDispenser; parser: token soups with importable files, sub-directories and snippets around them through casketfile.Parse (panic capture + watchdog, child process when an import cycle is possible); random ASTs (blocks, keys, directives, quoted/escaped/multi-line/env args, sub-blocks nested to depth 3) rendered with random layout and a random partition into imported files (nested to depth 4, sub-directories, glob groups, env-expanded patterns, whole sites), snippets (incl. snippets importing snippets with directives before and after the inner import, consecutive imports, definitions in inner-first / outer-first / shuffled order and sharing physical lines, and a snippet file), arguments incl. multi-line quoted tokens holding environment references followed by further arguments — the model parses the SAME files through a glob/file oracle and must give the same keys and (file, line, text) tokens or the same error class, and the output must equal the generating AST in texts and line structure; damaged renderings (malformed block structure); generated import cycles of length 1-4 at directive, sub-block and top level; non-trivial = >=2 tokens / parsed blocks / every AST, file or cycle case",
 		Gen:    c10Gen,
 		Decode: func(raw json.RawMessage) (interface{}, error) {
 			in := &c10In{}
